@@ -464,6 +464,12 @@ theorem transpile_normalised (evs : List NodeEv)
     | .error y => y.inHierarchy = true ∨ (∃ ev ∈ evs, ev.result = .error y ∧ y.isException = false) :=
   proc evs hprops hctor
 
+/-- non-vacuity: a handler raising a lark-like third-party class after a child; the outcome is Errors.Fatal -/
+example :
+    (match pyTranspile (.ok ()) [⟨.own, [], .ok ()⟩, ⟨.own, [.single], .error ⟨.user ['U'] [.atom (.bi .Exception)] true, .other⟩⟩] with
+      | .error y => y.cls.isA (.err .Fatal) | .ok _ => false) = true := by
+  decide
+
 /-- Without that hypothesis the transpile stage is NOT normalised: an exception of `root.procedural()` or of a node property
     evaluated by `__make_event` leaves `Py2Cpp.transpile` raw (escaping site: procedure.py:84 / :191; nothing in
     Py2Cpp.transpile, Runner._run_impl or Interactive.run converts it — only `__main__` prints it). -/
@@ -522,6 +528,14 @@ theorem render_stacktrace_total (rootDir : Str) (entries : List TraceEntry)
   rw [hls, hl]
   exact ⟨_, rfl⟩
 
+/-- non-vacuity: header, one frame entry without a source line, the exception line — three entries, each with a line feed -/
+example :
+    (match buildStacktrace ['/', 'r', '/'] [⟨['T', 'r', 'a', 'c', 'e', 'b', 'a', 'c', 'k', ':', '\n'], none⟩,
+        ⟨[' ', ' ', 'F', '\n'], some (['/', 'r', '/', 'a', '.', 'p', 'y'], ['3'], ['f'])⟩, ⟨['E', ':', ' ', 'x', '\n'], none⟩] with
+      | .ok ls => ls == [['S', 't', 'a', 'c', 'k', 't', 'r', 'a', 'c', 'e', ':'], [' ', ' ', 'a', '.', 'p', 'y', ':', '3', ' ', 'f'], [' ', ' ', ' ', ' ', '>', '>', '>', ' ']]
+      | .error _ => false) = true := by
+  decide
+
 /-- the guard is needed: an exception object that was never raised has a one-entry trace and `traces[-2]` raises IndexError -/
 example : (match buildStacktrace [] [⟨['E', ':', ' ', 'x', '\n'], none⟩] with | .error x => x.cls.isA (.bi .IndexError) | .ok _ => false) = true := by
   decide
@@ -540,5 +554,117 @@ theorem render_total_all (fallback : Bool) (rootDir : Str) (entries : List Trace
       cases buildMessageWith fallback args with
       | error x => simp
       | ok m => simp
+
+/-! ### Every except clause (generated audit table) -/
+
+/-- The except tables the model interprets are exactly the clauses the audit found at those sites — one generated source of truth:
+    a clause added to, removed from or reordered in any of these functions changes the audit and breaks this theorem. -/
+theorem tables_are_audit_projections :
+    emitHandlers.map Handler.shape = auditShapes .semantics_procedure_Procedure_emit 0 ∧
+    makeEventHandlers.map Handler.shape = auditShapes .semantics_procedure_Procedure_make_event 0 ∧
+    execImplHandlers.map Handler.shape = auditShapes .semantics_procedure_Procedure_exec_impl 0 ∧
+    parserMemHandlers.map Handler.shape = auditShapes .implements_syntax_lark_parser_SyntaxParserOfLark_load_entry 0 ∧
+    parserDiskHandlers.map Handler.shape = auditShapes .implements_syntax_lark_parser_SyntaxParserOfLark_load_entry_instantiate 0 ∧
+    modulesLoadHandlers.map Handler.shape = auditShapes .module_modules_Modules_load 0 ∧
+    modulesLoadRollbackCatch.map (fun a => (a, Disposition.cleanupReraise)) = auditShapes .module_modules_Modules_load 1 ∧
+    interactiveOuterCatch.map (fun a => (a, Disposition.pass)) = auditShapes .bin_transpile_Interactive_run 0 ∧
+    interactiveInnerCatch.map (fun a => (a, Disposition.print)) = auditShapes .bin_transpile_Interactive_run 1 ∧
+    mainCatch.map (fun a => (a, Disposition.print)) = auditShapes .bin_transpile_module 0 := by
+  decide
+
+/-- the places where an exception is allowed to end without being re-raised although it is not a member of the hierarchy:
+    the prompt's KeyboardInterrupt, the top-level report of `__main__`, the renderer's repr() fallback, the writer's one retry -/
+def swallowSinks : List (Site × Nat × List Atom) :=
+  [(.bin_transpile_Interactive_run, 0, [.bi .KeyboardInterrupt]), (.bin_transpile_module, 0, [.bi .Exception]),
+   (.view_error_render_ErrorRender_arg_to_str, 0, [.bi .Exception]), (.file_writer_Writer_flush, 0, [.bi .PermissionError])]
+
+/-- No except clause anywhere on the audited paths (all of rogw/tranp except compatible/, test/ and the stand-alone tools) hides a
+    non-tranp exception: a clause that does not re-raise either catches members of the Errors.Error hierarchy only (look-ups that
+    may fail: UnresolvedSymbol, NodeNotFound; the interactive report) or is one of the four named sinks. So a KeyError / IndexError /
+    AssertionError / parser exception raised anywhere travels until a normalising site or the top level — what the fuzz observes
+    is what happened. -/
+theorem audit_no_hidden_swallow :
+    ∀ c ∈ exceptAudit, swallows c.disp = true →
+      (c.catches ≠ [] ∧ ∀ a ∈ c.catches, a.isA (.err .Error) = true) ∨ (c.site, c.tryNo, c.catches) ∈ swallowSinks := by
+  decide
+
+/-- Every clause of the audit that wraps, wraps into a member of the hierarchy; the only clause with a dynamic class list is the
+    `raises` decorator of lang/error.py (unused on the audited paths: checked by the translator). -/
+theorem audit_dynamic_clause_unique :
+    (exceptAudit.filter (fun c => c.catches.isEmpty)).map (·.site) = [.lang_error_raises_decorator_wrapper] := by
+  decide
+
+/-- The normalising sites convert EVERY exception class that is an `Exception` — named, third-party or user-defined, in or out of
+    the hierarchy — into a member of the hierarchy; the two parser branches into `Errors.Syntax`. Proved from the generated tables by
+    the decidable criterion `coversException` (soundness: `coversException_sound`), not from their particular shape. -/
+theorem normalising_sites_convert_all (x : Exc) (hx : x.isException = true) (hctor : CtorOk x) :
+    (propagate emitHandlers x).inHierarchy = true ∧
+    (propagate modulesLoadHandlers x).inHierarchy = true ∧
+    (propagate parserDiskHandlers x).cls.isA (.err .Syntax) = true ∧
+    (propagate parserMemHandlers x).cls.isA (.err .Syntax) = true :=
+  ⟨coversException_sound emitHandlers (by decide) x hx hctor,
+   coversException_sound modulesLoadHandlers (by decide) x hx hctor,
+   coversWraps_sound .Syntax parserDiskHandlers (by decide) (by decide) x hx,
+   coversWraps_sound .Syntax parserMemHandlers (by decide) (by decide) x hx⟩
+
+/-- non-vacuity: lark's UnexpectedToken (third party, not in the hierarchy) satisfies the hypotheses -/
+example : (⟨.user ['U'] [.atom (.bi .Exception)] true, .other⟩ : Exc).isException = true ∧ CtorOk ⟨.user ['U'] [.atom (.bi .Exception)] true, .other⟩ := by
+  constructor
+  · decide
+  · intro h; exact absurd h (by decide)
+
+/-- `CtorOk` holds for every named class (no member of `Errors` customises its constructor): for handlers that raise named classes
+    only, `proc` needs no constructor hypothesis. -/
+theorem ctorOk_named (a : Atom) (arg0 : Arg0) : CtorOk ⟨.atom a, arg0⟩ := by
+  intro _ _
+  cases a with
+  | err n => exact err_ctor1 n
+  | bi b => rfl
+
+theorem proc_named (evs : List NodeEv)
+    (hprops : ∀ ev ∈ evs, ∀ x, PropSpec.raises x ∉ ev.props)
+    (hnamed : ∀ ev ∈ evs, ∀ x, ev.result = .error x → ∃ a, x.cls = .atom a) :
+    match execImpl (.ok ()) evs with
+    | .ok _ => True
+    | .error y => y.inHierarchy = true ∨ (∃ ev ∈ evs, ev.result = .error y ∧ y.isException = false) :=
+  proc evs hprops (fun ev hev x hx => by
+    obtain ⟨a, ha⟩ := hnamed ev hev x hx
+    have := ctorOk_named a x.arg0
+    cases x with
+    | mk c a0 => simp only at ha; subst ha; exact this)
+
+/-- Every member of the generated `Errors` hierarchy, with every argument shape, that reaches the interactive loop is printed and
+    the loop continues. -/
+theorem loop_handles_all_errors (n : ErrName) (a : Arg0) :
+    (match step (.code (.error (Exc.ofErr n a)) (.ok ())) with | .running => true | _ => false) = true := by
+  cases n <;> cases a <;> rfl
+
+
+/-! ### One turn of the interactive loop -/
+
+/-- A turn whose unload succeeds, whose load stage ends like `Modules.load` does (`load_normalised`) and whose transpile stage ends
+    like `transpile_normalised` says — ok or in the hierarchy — returns to the prompt. -/
+theorem turn_survives (load transpile : Except Exc Unit)
+    (hl : match load with | .ok _ => True | .error x => x.inHierarchy = true)
+    (ht : match transpile with | .ok _ => True | .error x => x.inHierarchy = true) :
+    step (.code (interactiveTurn (.ok ()) load transpile) (.ok ())) = .running := by
+  apply loop
+  unfold interactiveTurn
+  cases load with
+  | error x => exact hl
+  | ok u => exact ht
+
+example : step (.code (interactiveTurn (.ok ()) (.error (Exc.ofErr .Fatal .other)) (.ok ())) (.ok ())) = .running := rfl
+
+/-- The unload of the previous input runs OUTSIDE `Modules.load`'s clauses (rebuild_module calls `modules.unload` itself): whatever
+    Exception it raises that is not in the hierarchy ends the loop. On HEAD the stage cannot raise for input reasons
+    (`unload_terminates`, loaders only delete entries); with the order of seeded/C07-4 it raised RecursionError. -/
+theorem turn_unload_unprotected (x : Exc) (hx : x.inHierarchy = false) (hk : x.cls.isA (.bi .KeyboardInterrupt) = false)
+    (load transpile render : Except Exc Unit) :
+    step (.code (interactiveTurn (.error x) load transpile) render) = .died x :=
+  loop_dies x hx hk render
+
+example : (Exc.ofBuiltin .RecursionError .none).inHierarchy = false ∧ (Exc.ofBuiltin .RecursionError .none).cls.isA (.bi .KeyboardInterrupt) = false := by decide
+
 
 end Tranp.C07
